@@ -126,12 +126,14 @@ func runCase(k *Case) (res result) {
 // faultKinds lists the failure kinds that can be realised at a step of the given kind.
 func faultKinds(step string) []Fault {
 	switch step {
-	case "useToken", "storeRev", "acmeStoreCert", "acmeUpdateOrder":
+	case "useToken", "storeRev", "acmeStoreCert", "acmeIndex", "acmeUpdateOrder":
 		return []Fault{{Kind: "error"}, {Kind: "timeout"}, {Kind: "deny"}}
 	case "isRevoked":
 		return []Fault{{Kind: "error"}, {Kind: "timeout"}, {Kind: "deny"}, {Kind: "malformed"}}
-	case "readCert", "readData", "acmeRead":
+	case "readCert", "readData":
 		return []Fault{{Kind: "error"}, {Kind: "malformed"}}
+	case "acmeRead":
+		return []Fault{{Kind: "error"}, {Kind: "timeout"}, {Kind: "malformed"}}
 	case "store":
 		return []Fault{{Kind: "error"}, {Kind: "timeout"}}
 	case "enrich", "authorize":
@@ -161,11 +163,11 @@ var scenarios = []scenario{
 	// sshsign: 0 token, 1 options, (2 policy), (3 signing), 4 certificate validators
 	{"sshsign", 0, 0, []int{0, 1, 4}}, {"sshsign", 1, 2, []int{0, 1, 4}},
 	{"sshrenew", 0, 0, []int{0}}, {"sshrekey", 0, 0, []int{0}}, {"sshrevoke", 0, 0, []int{0}},
-	{"acme", 0, 0, nil}, {"acme", 1, 1, nil},
+	{"acme", 0, 0, []int{0}}, {"acme", 1, 1, []int{0}},
 }
 
-var srcFns = []string{"signX509", "renewContext", "Revoke", "signSSH", "renewSSH", "rekeySSH", "authorizeToken", "authorizeSign", "Finalize",
-	"Enrich", "Authorize", "DoWithContext"}
+var srcFns = []string{"authorizeToken", "authorizeSign", "signX509", "authorizeRenew", "renewContext", "Revoke",
+	"signSSH", "renewSSH", "rekeySSH", "Finalize", "DoWithContext"}
 
 func runAll(ks []*Case, workers int) []result {
 	out := make([]result, len(ks))
@@ -243,7 +245,7 @@ func main() {
 	for _, fn := range srcFns {
 		src = append(src, &Case{Op: "src", Fn: fn, Chk: -1})
 	}
-	if *only == "" {
+	if *only == "" || *only == "src" {
 		emitAll(src)
 	}
 
